@@ -85,7 +85,7 @@ fn check_parse_against_reference<const MAXLEN: usize>() {
 #[kani::unwind(10)]
 fn parse_vs_reference_28() { check_parse_against_reference::<28>(); }
 
-//@ harness id=wire.k.parse_vs_reference.40 kind=bounded props=C11,C10 tier=thorough timeout=3000 bound="DGRAM<=40 bytes (chains of up to 10 extensions)" text="same as wire.k.parse_vs_reference.28 for buffers up to 40 bytes"
+//@ harness id=wire.k.parse_vs_reference.40 kind=bounded props=C11,C10 tier=quick timeout=1800 bound="DGRAM<=40 bytes (chains of up to 10 extensions)" text="same as wire.k.parse_vs_reference.28 for buffers up to 40 bytes"
 #[kani::proof]
 #[kani::unwind(13)]
 fn parse_vs_reference_40() { check_parse_against_reference::<40>(); }
@@ -119,7 +119,7 @@ fn check_message<const MAXLEN: usize>() {
 #[kani::unwind(26)]
 fn message_24() { check_message::<24>(); }
 
-//@ harness id=wire.k.message.32 kind=bounded props=C11,C10 tier=thorough timeout=3000 bound="DGRAM<=32 bytes" text="same as wire.k.message.24 for buffers up to 32 bytes"
+//@ harness id=wire.k.message.32 kind=bounded props=C11,C10 tier=quick timeout=1800 bound="DGRAM<=32 bytes" text="same as wire.k.message.24 for buffers up to 32 bytes"
 #[kani::proof]
 #[kani::unwind(34)]
 fn message_32() { check_message::<32>(); }
